@@ -119,6 +119,10 @@ def step (m : M) (tok : String) : M × String :=
     match fromDrain ys with
     | some m' => (m', "H" ++ showState http)
     | none => (m, "H!")
+  | ["fi"] =>
+    let (xs, _, _) := iterRun (len m + 1) (iter m)
+    let m' := fromPairs xs
+    (m', "F" ++ showState m')
   | _ => (m, "bad-op")
 
 def runOps : M → List String → List String → List String
